@@ -716,7 +716,13 @@ func (s *State) step(instr ssa.Instruction) {
 	case *ssa.Convert:
 		s.env[x] = s.convert(x)
 	case *ssa.MakeInterface:
-		s.env[x] = s.box(s.valOf(x.X), x.Type())
+		bv := s.valOf(x.X)
+		if bi, named, isPtr := c.eng.boxInvFor(bv.T); bi != nil && bv.S != "" {
+			if t, ok := s.boxInvTerm(bi, named, isPtr, bv); ok {
+				s.oblige("boxinv:"+bi.Type, x, c.ordinal(x, "boxinv"), t, bi.Pred+" must hold when a "+bi.Type+" is handed out as an interface value", true)
+			}
+		}
+		s.env[x] = s.box(bv, x.Type())
 	case *ssa.TypeAssert:
 		s.env[x] = s.typeAssert(x)
 	case *ssa.Extract:
